@@ -158,6 +158,10 @@ theorem skeleton_conforms : genCfg.Good := by
   unfold Cfg.Good genCfg
   exact ⟨by decide, by decide, by decide, by decide, by decide⟩
 
+/-- FC03b: both connect functions saturate their timeout before it enters clock arithmetic (`wait_for`'s `now() + rel_time`, the
+wrapper's `now() + timeout`), so `std::chrono::milliseconds::max()` — "no timeout" — cannot wrap the deadline into the past. -/
+theorem timeouts_saturate : TsyncFacts.connectTimeoutsSaturate = true := by decide
+
 /-- **T1.** (every `cfg.Good`, every schedule) A connectSync call returns `ok sid` only for the session its own `engine->connect`
 created, only after the `onConnect` handler delivered that session's completion to it, and never for a session for which any
 connectSync has issued `engine->close`. -/
